@@ -21,12 +21,18 @@ TInit == l = 1 /\ cur = FirstDate /\ fresh = TRUE
 IsEvent(e) == l <= Len(Trace) /\ Trace[l].ev = e /\ l' = l + 1
 TSeg == IsEvent("seg") /\ cur' = Jan1(Trace[l].y0) /\ fresh' = TRUE
 TDay == IsEvent("d") /\ cur' = (IF fresh THEN cur ELSE NextDate(cur)) /\ fresh' = FALSE
-TNext == TSeg \/ TDay
+\* a date reached by a jump (group J: one converter instance is called for dates in arbitrary order): the machine's date
+\* is the declarative date of (y, m, d)
+RECURSIVE DaysBeforeMonth(_, _)
+DaysBeforeMonth(y, m) == IF m = 1 THEN 0 ELSE DaysBeforeMonth(y, m - 1) + DaysInMonth(y, m - 1)
+DateOfYMD(y, m, d) == [y |-> y, m |-> m, d |-> d, n |-> Jan1(y).n + DaysBeforeMonth(y, m) + d - 1, doy |-> DaysBeforeMonth(y, m) + d]
+TJump == IsEvent("j") /\ cur' = DateOfYMD(Trace[l].y, Trace[l].m, Trace[l].d) /\ fresh' = FALSE
+TNext == TSeg \/ TDay \/ TJump
 TSpec == TInit /\ [][TNext]_tvars
 TraceAccepted == TLCGet("stats").diameter - 1 = Len(Trace)
 
 Ev == Trace[l - 1]
-AtDay == l > 1 /\ Ev.ev = "d"
+AtDay == l > 1 /\ Ev.ev \in {"d", "j"}
 Short(f) == f \in {0, 2}
 \* the generator's own date must be the machine's date (guards the driver, not the code)
 InputIsMachine == AtDay => Ev.y = cur.y /\ Ev.m = cur.m /\ Ev.d = cur.d
